@@ -86,8 +86,7 @@ def compare(m, spec, rng, counters, bad, evals=EVALS, n_points=2, fd=True):
                 if not eq:
                     bad("%s differs from the true derivative" % getter, entry=[i, j], got=str(got[i, j]), expected=str(exp[i, j]))
                     break
-    for _ in range(n_points):
-        x, t, th = G.eval_point(rng, spec, lo=0.5, hi=8.0)
+    for ipt, (x, t, th) in enumerate(G.eval_points(rng, spec, n_points, lo=0.5, hi=8.0)):
         xa = np.array(x, dtype=float)
         if nP:
             try:
@@ -121,7 +120,7 @@ def compare(m, spec, rng, counters, bad, evals=EVALS, n_points=2, fd=True):
             if not np.all(np.abs(got - exp) <= 1e-8 * np.abs(exp) + 1e-11 * scale):
                 bad("%s(x,t) differs from the true derivative" % ev, got=got.tolist(), expected=exp.tolist(), x=x, t=t, theta=th)
         # ---- finite differences of pygom's own ode (state Jacobian and parameter gradient)
-        if fd:
+        if fd and ipt == 0:
             try:
                 with contextlib.redirect_stdout(io.StringIO()):
                     if "jacobian" in vals:
@@ -227,7 +226,7 @@ def run_case(rng, idx, tier, lane, ctx):
             native = NativeCounter()
             native.install()
         try:
-            ref = compare(m, spec, rng, counters, bad, n_points=1 if cython else 2, fd=not cython)
+            ref = compare(m, spec, rng, counters, bad, n_points=1 if cython else 3, fd=not cython)
         finally:
             if native:
                 native.remove()
